@@ -328,6 +328,10 @@ func genUser(r *Rng, hostile bool) fUser {
 	if r.Chance(4) {
 		name = Pick(r, fmtSpaces)
 	}
+	if r.Chance(2) {
+		// long gecos / home fields (line longer than 4096 bytes)
+		shell = "/bin/" + strings.Repeat("s", Pick(r, []int{4000, 4090, 4096, 5000, 9000}))
+	}
 	u.Name, u.Password, u.Info, u.Home, u.Shell = hx(name), hx(Pick(r, []string{"x", "", "*", "!", genPwField(r, hostile)})), hx(genPwField(r, hostile)), hx(genPwField(r, hostile)), hx(shell)
 	ids := []uint32{0, 1, 100, 1000, 65534, 65535, 1<<31 - 1, 1 << 31, 1<<32 - 1}
 	u.UID, u.GID = Pick(r, ids), Pick(r, ids)
@@ -346,8 +350,16 @@ func genGroup(r *Rng, hostile bool) fGroup {
 	g.Name, g.Password = hx(name), hx(Pick(r, []string{"x", "", "*", genPwField(r, hostile)}))
 	g.GID = Pick(r, []uint32{0, 1, 100, 65534, 1<<31 - 1, 1 << 31, 1<<32 - 1, uint32(r.Next())})
 	n := Pick(r, []int{0, 0, 1, 1, 2, 3, 6})
+	if r.Chance(3) {
+		// a long line: around and beyond the buffer sizes of line readers (4096 for bufio.Reader; the 64 KiB token limit of
+		// bufio.Scanner is the recorded bound of the readers and is not crossed)
+		n = Pick(r, []int{440, 453, 454, 455, 470, 700, 2000})
+	}
 	for i := 0; i < n; i++ {
 		m := strings.ReplaceAll(genPwField(r, false), ",", "_")
+		if n > 100 {
+			m = fmt.Sprintf("user%04d", i)
+		}
 		if m == "" {
 			m = "m"
 		}
